@@ -126,7 +126,12 @@ class ExprMixin:
         if isinstance(v, DequeV):
             return v.hi > v.lo
         if isinstance(v, EnumMap):
-            raise Unsupported("truth(EnumMap)")
+            alts = []
+            for n, sv in v.slots.items():
+                if sv is None:
+                    continue
+                alts.append(z3.Not(sv.none) if isinstance(sv, SOpt) else z3.BoolVal(True))
+            return z3.Or(alts) if alts else False
         if isinstance(v, EnumSet):
             return z3.Or([bterm(x) if not isinstance(x, bool) else z3.BoolVal(x) for x in v.slots.values()])
         if isinstance(v, TimeDelta):
@@ -184,6 +189,11 @@ class ExprMixin:
 
     def e_Set(self, node, env):
         vals = [self.eval(e, env) for e in node.elts]
+        if vals and all(isinstance(v, EnumVal) for v in vals) and len({v.cls.key for v in vals}) == 1:
+            ci = vals[0].cls
+            names = [self.enum_concrete_name(v) for v in vals]
+            if all(n is not None for n in names):
+                return EnumSet(ci, {n: (n in names) for n, _ in ci.enum_members})
         return PySet(vals)
 
     def e_Dict(self, node, env):
@@ -720,6 +730,8 @@ class ExprMixin:
             self.raise_builtin("AttributeError", node)
         if isinstance(obj, Obj):
             if attr in obj.fields:
+                for h in self.field_hooks:
+                    h(self, obj, attr, "read", node)
                 return obj.fields[attr]
             if obj.cls is not None:
                 meth = self.tree.find_method(obj.cls, attr)
